@@ -14,7 +14,7 @@ META = {
                    "order pairing of every multi-byte field between constructor and accessors; on the pre-transform MIR of "
                    "the async readers every read_exact result is honoured, a body is read only behind the length guard, "
                    "unknown PDU types / versions fail; every loop around a plain `read` has a zero-length (EOF) exit; "
-                   "payload conversion goes through the checked prefix constructors.",
+                   "payload conversion goes through the checked prefix constructors; the payload a variable-length PDU stores is the one whose length went into its header; the variable part is delivered only after a checked read_exact (no read that may complete early).",
     "not_decided": ["value round trip read(write(x)) == x for all payloads", "the number of bytes consumed before an error",
                     "allocation sized by the declared length before any byte arrives (reported as an observation)"],
     "trusted_base": ["tokio read_exact/read/write_all contracts", "rustc layout_of for #[repr(C, packed)] structs"],
